@@ -13,4 +13,5 @@ pub mod eng_transfer;
 pub mod eng_tamper;
 pub mod eng_format;
 pub mod eng_fault;
+pub mod eng_conf;
 pub mod alloc;
